@@ -9,10 +9,10 @@ use sylt_common::verif_hash::HashMap;
 macro_rules! write {
     ($out:expr, $msg:expr ) => {
         // :3
-        let _ = $out.write($msg.as_ref());
+        let _ = $out.write_all($msg.as_ref());
     };
     ($out:expr, $( $msg:expr ),+ ) => {
-        let _ = $out.write(format!($( $msg ),*).as_ref());
+        let _ = $out.write_all(format!($( $msg ),*).as_ref());
     };
 }
 
